@@ -22,7 +22,10 @@ CFG = {
                  "after every render, include and component; every accepted set is rendered whole, by every block and by every component, and "
                  "operator / syntax-form / filter / filter-kwarg / test / function templates are rendered over the full product of a 38-value pool "
                  "(every kind, bytes incl. invalid UTF-8, i128/u128 extremes, NaN/+-inf, Undefined inside maps and arrays, depth-64 nesting): "
-                 "outcome must be text that re-validates as UTF-8 or an error value, never a panic. UNK — 570+ (reference kind x syntactic site) "
+                 "outcome must be text that re-validates as UTF-8 or an error value, never a panic. REC — 14 programs that recurse without bound unless the "
+                 "component depth guard stops them (self / mutual / component->include->component / body including the caller / through super(), blocks, "
+                 "set-capture, filter section, kwargs) are rendered (every template, block and component) in a CHILD PROCESS with a 30 s limit: each must "
+                 "end in an error value; death by signal (stack overflow) or timeout is a violation. UNK — 570+ (reference kind x syntactic site) "
                  "templates with a name nobody registered must be rejected by add_raw_templates and render_str; an accepted one must not fail at "
                  "render time with a not-registered/not-found error or a panic.",
     "trusted_base": TB_COMMON + [
